@@ -99,7 +99,7 @@ namespace Polyseed.C08
 
 /-- the premises are met by real abbreviations: "aban" for English word 0 ("abandon") -/
 example : Accepts Gen.L0.lang [97, 98, 97, 110] 0 := by
-  refine ⟨by decide, by decide +kernel, ?_⟩
+  refine ⟨fun b hb => by simp at hb; omega, by decide +kernel, ?_⟩
   unfold Rule
   decide +kernel
 
